@@ -115,13 +115,8 @@ def run_history(ctx, res, rng, hid):
 
 
 def body(ctx: C.Ctx, proof: C.ProofStatus) -> C.Result:
-    res = C.Result()
-    rng = ctx.rng
-    reqs = []
-    for hid in range(ctx.scale(14, 4000)):
-        r = run_history(ctx, res, rng, hid)
-        if r:
-            reqs += r
+    res, rets = C.parallel_jobs(ctx, ctx.scale(42, 500), run_history)
+    reqs = [q for r in rets if r for q in r]
     if proof.driver_ok and reqs:
         for (q, want), m in zip(reqs, C.model_batch([q for q, _ in reqs])):
             res.evaluations += 1
